@@ -32,13 +32,14 @@ import (
 	"strings"
 	"sync"
 	"sync/atomic"
+	"syscall"
 	"testing"
 	"time"
 )
 
 // zzC14Spec is the scenario description passed in ZZC14_SPEC.
 type zzC14Spec struct {
-	Mode   string `json:"mode"`   // "trace" | "poll"
+	Mode   string `json:"mode"`   // "trace" | "poll" | "crash"
 	Writer string `json:"writer"` // "filter"
 	Root   string `json:"root"`   // scratch root, exists, empty
 	Out    string `json:"out"`    // NDJSON result file
@@ -46,6 +47,11 @@ type zzC14Spec struct {
 	Seed   int64  `json:"seed"`
 	// MaxReads bounds the number of reads of the concurrent reader.
 	MaxReads int `json:"maxreads"`
+	// Resume: the scratch root is what an earlier (killed) child left behind;
+	// set-up must take the destination and everything else as it finds them.
+	Resume bool `json:"resume"`
+	// Gen distinguishes the documents of successive children on one root.
+	Gen int `json:"gen"`
 }
 
 // zzC14Writer is one of the real save paths.
@@ -166,7 +172,11 @@ func zzC14Run(t *testing.T, sp *zzC14Spec, w zzC14Writer) {
 		}()
 	}
 
-	for _, size := range sp.Sizes {
+	for i, size := range sp.Sizes {
+		if sp.Mode == "crash" && i == len(sp.Sizes)-1 {
+			zzC14CrashWatcher(dst)
+		}
+
 		ver++
 		lg.add(map[string]any{"ev": "begin", "id": ver, "want": size})
 		zzC14Mark(fmt.Sprintf("begin/%d", ver))
@@ -231,6 +241,55 @@ func zzC14Run(t *testing.T, sp *zzC14Spec, w zzC14Writer) {
 
 	lg.add(map[string]any{"ev": "done"})
 	lg.flush(t, sp.Out)
+}
+
+// zzC14CrashWatcher is the "power cord" of the crash mode: as soon as a file
+// that did not exist before the last save shows up next to the destination
+// (or in TMPDIR) with a non-zero, no longer growing size -- i.e. the writer is
+// somewhere between its last write and the end of the save -- the whole
+// process is killed with SIGKILL.  Whatever it leaves behind (typically a
+// left-over temporary file) is the starting state of the next child.
+func zzC14CrashWatcher(dst string) {
+	dirs := []string{filepath.Dir(dst)}
+	if td := os.TempDir(); td != dirs[0] {
+		dirs = append(dirs, td)
+	}
+
+	known := map[string]bool{dst: true}
+	for _, d := range dirs {
+		ents, _ := os.ReadDir(d)
+		for _, e := range ents {
+			known[filepath.Join(d, e.Name())] = true
+		}
+	}
+
+	go func() {
+		last := map[string]int64{}
+		for {
+			for _, d := range dirs {
+				ents, _ := os.ReadDir(d)
+				for _, e := range ents {
+					p := filepath.Join(d, e.Name())
+					if known[p] || e.IsDir() {
+						continue
+					}
+
+					fi, err := e.Info()
+					if err != nil {
+						continue
+					}
+
+					if n := fi.Size(); n > 0 && last[p] == n {
+						_ = syscall.Kill(syscall.Getpid(), syscall.SIGKILL)
+					} else {
+						last[p] = n
+					}
+				}
+			}
+
+			time.Sleep(100 * time.Microsecond)
+		}
+	}()
 }
 
 func zzC14LoadSpec(t *testing.T) (sp *zzC14Spec) {
@@ -324,7 +383,13 @@ func (w *zzC14Leases) setup(t *testing.T, sp *zzC14Spec) (dst string, init int) 
 		sp.Sizes = sp.Sizes[1:]
 	}
 
-	if pre >= 0 {
+	if sp.Resume {
+		// Take the database an earlier child left behind as it is.
+		w.next = sp.Gen * 200000
+		if fi, serr := os.Stat(dst); serr == nil {
+			init = int(fi.Size())
+		}
+	} else if pre >= 0 {
 		dl := &dataLeases{Version: dataVersion, Leases: []*dbLease{}}
 		for n := 0; n < pre; n += 300 {
 			i := len(dl.Leases)
@@ -356,7 +421,7 @@ func (w *zzC14Leases) setup(t *testing.T, sp *zzC14Spec) (dst string, init int) 
 	}
 
 	w.s = s
-	if got := len(s.srv4.getLeasesRef()); got != w.next {
+	if got := len(s.srv4.getLeasesRef()); !sp.Resume && got != w.next {
 		t.Fatalf("c14: loaded %d leases, want %d", got, w.next)
 	}
 
@@ -398,7 +463,7 @@ func (w *zzC14Leases) save(t *testing.T, ver, size int) (err error) {
 		l := &leaseStatic{
 			HWAddr:   zzC14MAC(i).String(),
 			IP:       zzC14IP(i),
-			Hostname: fmt.Sprintf("zzc14-v%d.%s", ver, strings.Repeat("b", 40)),
+			Hostname: fmt.Sprintf("zzc14-g%d-v%d.%s", w.sp.Gen, ver, strings.Repeat("b", 40)),
 		}
 		w.added = append(w.added, l)
 		w.count[ver] = cur + 1
